@@ -156,7 +156,10 @@ CHECKS = [
      'text': 'Programs over the tensor catalogue (algebra, fusion, factorisations, block, constructors, masks, swap gates + 30 observer/'
              'utility calls) snapshot every pool tensor (to_dict(level=2) + raw data bytes) before and after each call, also when it raises; '
              'copy/clone/from_dict/split-combine results stay unchanged when the source is modified through set_block / item assignment '
-             '(and vice versa), shallow views keep their own structure. MPS/MPO and PEPS objects are covered by the mps/peps parts.',
+             '(and vice versa), shallow views keep their own structure. MPS/MPO: 35 non-in-place calls (algebra, measurements, environments, zipper, '
+             'compression of a copy ...) with snapshots of every argument; copy/clone/shallow_copy of MPS, MPO, Peps, Peps2Layers, Lattice, '
+             'DoublePepsTensor, EnvCTM, EnvBP, EnvBoundaryMPS modified through item/block assignment and methods ending in _ in either direction; '
+             'PEPS observers (to_tensor, transfer_mpo, environments, measurements) leave the Peps unchanged.',
      'note': 'trusted: to_dict(level=2) and .data as the snapshot; numpy.shares_memory for the non-triviality label'},
     {'id': 'C16',
      'technique': 'Hypothesis-generated interleaved histories of twin programs with cache operations; differential run against undecorated functions plus a per-call audit wrapper (recomputation and insertion digests)',
